@@ -9,11 +9,13 @@ ASSUMPTIONS = ["the built binary (go build of /repo/main.go) is run in scratch d
 # contents, names and replacements carry the bytes an output path could mangle: % (printf verbs), quotes, backslashes, <>&
 FILES = {"a.txt": "banana band 50%an% an\"q an\\y", "b.txt": "an apple\nand a nap %d an%s", "c.log": "bandana", "d%s 100%.txt": "an%v & <an>",
          # names in which the literal tail of *.txt starts to match early and has to be retried
-         "x.t.txt": "an", "only..txt": "nan", "a.txt.txt": "anan"}
+         "x.t.txt": "an", "only..txt": "nan", "a.txt.txt": "anan",
+         # ... and in which the literal piece after the star overlaps ITSELF (a false start inside the name: b-an-ana.txt against *ana.txt)
+         "banana.txt": "an an", "ana.txt": "nan"}
 PROGS = {"find": "find all 'an' maybe in '%', '\"', '\\\\', '>'", "replace": "replace all 'an' with '<%' value '%d>'", "delete": "replace all 'an' with ''", "failing": "find all (",
          # several commands over several files: the result list is ordered command by command, within a command file by file
          "several": "find all 'ban' find all ('an' = w) maybe 'd' replace all 'nd' with 'ND' find all at least 1 (('a' or 'n') = c) named cs"}
-FILESETS = {"one": "a.txt", "several": "*.txt", "glob": "*", "none": "*.nothing"}
+FILESETS = {"one": "a.txt", "several": "*.txt", "glob": "*", "none": "*.nothing", "overlap": "*ana.txt"}
 
 
 def selected(fileset):
